@@ -229,6 +229,9 @@ def toptree_state(facts, cls, res):
     state = set()
     viaparam = set()
     local_state = set()
+    state_part = {}
+    PRODUCER = {"multipole": "M2M", "local": "M2L"}     # the stage that recomputes the virtual-level expansions of that kind from nothing
+    head_resets = {}
     fields = {f["name"] for f in facts.cls(cls)["fields"]}
     for fn, sr, call, op, slots in c02.toptree_calls(facts, cls, cmap):
         for (role, part, io), sl in zip(coherence.ROLES[op], slots):
@@ -239,6 +242,7 @@ def toptree_state(facts, cls, res):
                 for y in walk(n):
                     if y.get("k") == "MemberExpr" and y.get("name") in fields:
                         state.add(y["name"])
+                        state_part.setdefault(y["name"], part)
                     pidx = [i for i, p_ in enumerate(fn["params"]) if y.get("k") == "DeclRefExpr" and p_["did"] is not None and p_["did"] == y.get("did")]
                     if pidx:
                         viaparam.add((fn["name"], pidx[0], part))
@@ -289,8 +293,57 @@ def toptree_state(facts, cls, res):
                 if root.get("k") == "MemberExpr" and root.get("name") in state:
                     hit = facts.ntext(lhs)[:40] + " = ..."
             if hit:
+                # the stage that recomputes a kind of expansion from nothing may start by zeroing it: a statement of the stage function's own
+                # block, before any kernel call, not under a condition or a loop - a new pass then does not add to the previous one's
+                # expansions, and what ANOTHER stage produced is untouched
+                member = [nm_ for nm_ in state if nm_ in hit]
+                body_m = tbf.body(m)
+                tbf.link_parents(body_m)
+                top = x
+                while top.get("_p") is not None and top.get("_p") is not body_m:
+                    top = top["_p"]
+                kcalls_ = [c_ for c_ in walk(body_m) if c_.get("k") in ("CallExpr", "CXXMemberCallExpr") and tbf.call_base(c_) is not None
+                           and strip(tbf.call_base(c_)).get("k") == "MemberExpr" and strip(tbf.call_base(c_)).get("name") == "kernel"]
+                if len(member) == 1 and PRODUCER.get(state_part.get(member[0])) == m["name"] and top.get("_p") is body_m \
+                        and top.get("k") not in ("IfStmt", "ForStmt", "WhileStmt", "DoStmt", "CXXForRangeStmt", "SwitchStmt") \
+                        and kcalls_ and all(x["b"] < c_["b"] for c_ in kcalls_) and not re.search(r"\.(clear|pop_back|erase|shrink_to_fit|swap)\(", hit):
+                    head_resets[member[0]] = x
+                    res.instance(R, "%s::%s resets %s" % (cls, m["name"], member[0]), facts.loc(x), "at the head of the stage that recomputes it (%s), before any operator call" % hit)
+                    continue
                 res.violation(R, tbf.rel(facts.path_of(x)), m["qname"], "%s@%d" % (hit, x["l"][1]), x["l"][1],
                               "%s resets the virtual-level expansions (%s) outside the operators: what an earlier execute() stage produced is lost, so staged calls no longer equal a full run" % (m["name"], hit))
+
+    if not hasattr(toptree_state, "last"):
+        toptree_state.last = {}
+    toptree_state.last[cls] = (state_part, head_resets, PRODUCER)
+
+def toptree_fresh_pass(facts, cls, res, R="C13.7.executor-expansions-reset"):
+    """the expansions of the virtual levels are cell expansions too, kept by the top-tree executor: a new pass (after the tree was rebuilt,
+    which zeroes every cell of the tree) must not add to the previous pass's values.  Each kind is zeroed at the head of the stage that
+    recomputes it from nothing (multipoles: M2M, locals: M2L); otherwise the second move / rebuild / execute cycle with the same
+    executor object counts the far images of the first cycle again."""
+    sub = tbf.Result("C12")
+    toptree_state(facts, cls, sub)
+    info = getattr(toptree_state, "last", {}).get(cls)
+    if not info:
+        if sub.violations:
+            res.instance(R, cls, "src/algorithms/periodic", "the expansions are not members (reported by C12.5): nothing to reset")
+            return 0
+        raise AnalysisBroken("%s: state of the top-tree executor not available" % cls)
+    state_part, head_resets, PRODUCER = info
+    ftypes = {f_["name"]: f_.get("t", "") for f_ in facts.cls(cls)["fields"]}
+    state_part = {k_: v_ for k_, v_ in state_part.items() if re.search(r"vector<|Cell(Multipole|Local)", ftypes.get(k_, ""))}
+    if len(state_part) < 2:
+        raise AnalysisBroken("%s: %d containers of virtual-level expansions identified (2 confirmed by reading)" % (cls, len(state_part)))
+    for member, part in sorted(state_part.items()):
+        st = PRODUCER.get(part)
+        fn = [m for m in facts.methods_of(cls) if m["name"] == st and tbf.body(m) is not None]
+        res.instance(R, "%s.%s" % (cls, member), facts.loc(fn[0]) if fn else "src/algorithms/periodic", "%s expansions of the virtual levels; zeroed at the head of %s: %s" % (part, st, member in head_resets))
+        if member not in head_resets:
+            res.violation(R, tbf.rel(facts.path_of(fn[0])) if fn else "src/algorithms/periodic", "%s::%s" % (cls, st), "never-reset:%s:%s" % (cls, member), fn[0]["l"][1] if fn else 1,
+                          "the %s expansions of the virtual levels ('%s') are sized once in the constructor and only ever added to: %s() does not zero them before recomputing them, and nothing else can (no reset is offered) - "
+                          "the second move / rebuild / execute cycle run with the same top-tree object adds the far images of the first cycle again (rebuild() zeroes the cells of the tree, not these)" % (part, member, st))
+    return len(state_part)
 
 
 def tree_touched_only_through_groups(facts, cls, res):
